@@ -71,10 +71,12 @@ def tok_input_class(t):
     return 'symbol'
 
 
-def minify(src, config, res=None, chunks=None):
-    """Runs the real token minifier; records the writer's state machine when res is given."""
+def minify(src, config, res=None, chunks=None, obj=None):
+    """Runs the real token minifier; records the writer's state machine when res is given.
+    `obj` = an already loaded Lua object for the same source (the three configurations share one load)."""
     lua = lua_mod()
-    obj = lua.Lua.from_lines(chunks or [src], version=8)
+    if obj is None:
+        obj = lua.Lua.from_lines(chunks or [src], version=8)
     w = lua.LuaMinifyTokenWriter(tokens=obj.tokens, root=obj.root, args=writer_args(config))
     gen = w.to_lines()
     out = []
@@ -123,7 +125,7 @@ def c08_cls(t):
     return t.kind
 
 
-def check_minified(prog, src, config, res, fam, obj, out):
+def check_minified(prog, src, config, res, fam, obj, out, light=False):
     """The C01 oracle on one (source, configuration, output)."""
     lua = lua_mod()
     case = {'src': src, 'config': config, 'family': fam}
@@ -196,7 +198,9 @@ def check_minified(prog, src, config, res, fam, obj, out):
                 res.violation('C01|comment-swallows', 'luamin(%r) = %r: comment %r is followed by code on its line' % (
                     src, out, t.text), case)
                 return None
-    # token count as reported by stats
+    # token count as reported by stats (needs a full re-parse of the output: skipped on the bulk one-gap layouts)
+    if light:
+        return insig, outsig
     try:
         n_in = obj.get_token_count()
         n_out = lua.Lua.from_lines([out], version=8).get_token_count()
@@ -223,11 +227,16 @@ def fused_pair(insig, out):
     return 'unknown'
 
 
-def run_one(prog, src, config, res, fam):
+_LOADED = {}
+
+
+def run_one(prog, src, config, res, fam, light=False):
     res.evaluations += 1
     case = {'src': src, 'config': config, 'family': fam}
     try:
-        obj, out = minify(src, config, res)
+        pre = _LOADED.get('obj') if _LOADED.get('src') == src else None
+        obj, out = minify(src, config, res, obj=pre)
+        _LOADED['src'], _LOADED['obj'] = src, obj
     except Exception as e:
         if prog is not None and c08.has_qprint(prog.skeleton):
             res.violation('C01|qprint|load-raises', 'luamin cannot load the valid program %r (? print inside a block): %r' % (
@@ -238,7 +247,7 @@ def run_one(prog, src, config, res, fam):
         return None
     if prog is not None and len(prog.toks) >= 4:
         res.nontriv((src, config))
-    r = check_minified(prog, src, config, res, fam, obj, out)
+    r = check_minified(prog, src, config, res, fam, obj, out, light=light)
     if r is not None:
         res.outcome((config, len(out) < len(src)))
     return r, out
@@ -336,7 +345,7 @@ def run_shard(item):
                 cfgs = CONFIGS if (desc in ('default', 'tight', 'pair-gap') and fam not in ('local', 'chain')) else \
                     [CONFIGS[(j + len(prog.toks)) % 3]]
                 for cfg in cfgs:
-                    run_one(prog, src, cfg, res, fam)
+                    run_one(prog, src, cfg, res, fam, light=(desc == 'dev1'))
             if fam == 'pairs':
                 res.cover('adj_pairs_minified', prog.pair)
             if k == 0 and len(res.samples) < 1:
